@@ -30,7 +30,7 @@ const ENTITIES: [Entity; 18] = [
     Entity { name: "builtin-ref", decls: "", pre: "", value: "ref", params: &["int32"], ret: "Ref[int32]", args: &["4"], render: "int32_to_string(ref_get(§))", expected: "4" },
     Entity { name: "builtin-ref_get", decls: "", pre: "let r0 = ref(4);\n    ", value: "ref_get", params: &["Ref[int32]"], ret: "int32", args: &["r0"], render: "int32_to_string(§)", expected: "4" },
     Entity { name: "builtin-ref_set", decls: "", pre: "let r0 = ref(4);\n    ", value: "ref_set", params: &["Ref[int32]", "int32"], ret: "unit", args: &["r0", "5"], render: "unit_to_string(§) + int32_to_string(ref_get(r0))", expected: "()5" },
-    Entity { name: "builtin-vec_new", decls: "", pre: "", value: "vec_new", params: &[], ret: "Vec[int32]", args: &[], render: "int32_to_string(vec_len(§))", expected: "0" },
+    Entity { name: "builtin-vec_new", decls: "", pre: "", value: "vec_new", params: &[], ret: "Vec[int32]", args: &[], render: "int32_to_string(vec_len(vec_push(§, 1)))", expected: "1" },
     Entity { name: "builtin-vec_push", decls: "", pre: "let v0: Vec[int32] = vec_new();\n    ", value: "vec_push", params: &["Vec[int32]", "int32"], ret: "Vec[int32]", args: &["v0", "7"], render: "int32_to_string(vec_get(§, 0))", expected: "7" },
     Entity { name: "builtin-vec_get", decls: "", pre: "let v0: Vec[int32] = vec_new();\n    let v1 = vec_push(v0, 7);\n    ", value: "vec_get", params: &["Vec[int32]", "int32"], ret: "int32", args: &["v1", "0"], render: "int32_to_string(§)", expected: "7" },
     Entity { name: "builtin-vec_len", decls: "", pre: "let v0: Vec[int32] = vec_new();\n    let v1 = vec_push(v0, 7);\n    ", value: "vec_len", params: &["Vec[int32]"], ret: "int32", args: &["v1"], render: "int32_to_string(§)", expected: "1" },
